@@ -159,6 +159,8 @@ def check(prog, res, tier):
         trial = st.copy()
         try:
             for x in extra:
+                if trial.refutes_ge0(x):
+                    return []
                 trial.assume_ge0(x)
         except Infeasible:
             return []
@@ -194,9 +196,17 @@ def check(prog, res, tier):
                     return []
             st = p.store
             extra = [Lin.sym(s) for s in list(st.iv) if 'wire-int' in _sym_tags(p, s)]
+            # ... and whose header and value bytes are all there: the field is long enough, seen from wherever the walk stands
+            src = p.interp.user['unit_args'][0][0].segs[0].src
+            extra.append(src.length - 5000)
+            for e in p.events:
+                if e.kind == 'loop-head' and e.under(u.name):
+                    extra += [src.length - g.lin - 2000 for k, g in e.data['gen'].items() if k[0] == 'local' and isinstance(g, IntV)]
             trial = st.copy()
             try:
                 for x in extra:
+                    if trial.refutes_ge0(x):
+                        return []
                     trial.assume_ge0(x)
             except Infeasible:
                 return []
